@@ -69,11 +69,20 @@ where R: EucRing + RingVars, for<'x> &'x R: EucRingOps<R> {
     let kh = KhHomology::new(l, &h, &t, reduced);
     let mut cells = vec![];
     if bigraded {
-        let g = kh.into_bigraded();
-        for idx in g.support() {
-            let s = g.get(idx);
-            if !s.is_zero() { cells.push(cell(idx.0, idx.1, s.rank(), s.tors().iter().map(|x| x.to_string()).collect())); }
+        // the bigraded table is projected from the h-graded homology here, not taken from into_bigraded (which the binary itself
+        // uses): generator k of Kh^i goes to the cell (i, q-degree of the generator), a torsion generator with its own order
+        use yui_kh::kh::KhChainExt;
+        let mut tab: BTreeMap<(isize, isize), (usize, Vec<String>)> = BTreeMap::new();
+        for i in kh.support() {
+            let s = kh.get(i);
+            let (r, tors) = (s.rank(), s.tors().to_vec());
+            for k in 0..r + tors.len() {
+                let q = s.gen(k).q_deg();
+                let e = tab.entry((i, q)).or_insert((0, vec![]));
+                if k < r { e.0 += 1; } else { e.1.push(tors[k - r].to_string()); }
+            }
         }
+        for ((i, j), (rank, tors)) in tab.into_iter() { cells.push(cell(i, j, rank, tors)); }
     } else {
         for i in kh.support() {
             let s = kh.get(i);
@@ -142,7 +151,7 @@ impl Catalogue {
         let s = std::fs::read_to_string(format!("{}/{}.json", self.res, name)).unwrap_or_else(|_| panic!("catalogue entry {}", name));
         parse_pd(&s).expect("catalogue PD")
     }
-    fn named(&self, name: &str) -> Input { Input { arg: name.to_string(), pd: Some(self.pd_of(name)) } }
+    pub(crate) fn named(&self, name: &str) -> Input { Input { arg: name.to_string(), pd: Some(self.pd_of(name)) } }
     pub(crate) fn exists(&self, name: &str) -> bool { std::path::Path::new(&format!("{}/{}.json", self.res, name)).exists() || std::path::Path::new(name).exists() }
     pub(crate) fn file_with(&self, name: &str, content: &str) -> String {
         let p = format!("{}/{}", self.work, name);
@@ -614,6 +623,18 @@ pub fn record(a: &Args) {
         let cvs = cv_str(&p["cv"], Some(&mut rng));
         let argv = argv_random(&p, &input.arg, &cvs, &mut rng);
         jobs.push(Job { point: p, input, argv, cvs });
+    }
+    // probes: knots whose homology has torsion summands of different orders inside one homological degree (over F2[H]: H and H^2;
+    // the bigraded table has to put each order into the cell of its own generator), at the points kh -t F2|F3|Z -c H
+    for name in ["10_154", "10_152", "10_132", "9_42"] {
+        if !cat.exists(name) { continue; }
+        for p in points.iter().filter(|p| p["cmd"] == "kh" && p["ic"] == "knot" && p["exp"]["class"] == "Table2D" && p["ring"]["vars"] == "H" && ["F2", "F3", "Z"].contains(&p["ring"]["base"].as_str().unwrap_or("")) && p["cv"].as_array().map(|c| c.len()).unwrap_or(0) == 1) {
+            if p["mirror"] == true && p["reduced"] == true { continue; }
+            let input = cat.named(name);
+            let cvs = cv_str(&p["cv"], Some(&mut rng));
+            let argv = argv_random(p, &input.arg, &cvs, &mut rng);
+            jobs.push(Job { point: p.clone(), input, argv, cvs });
+        }
     }
     let res = run_jobs(&ykh, &jobs, threads);
     let mut t = AsciiTracer::create(&a.out);
